@@ -24,6 +24,7 @@ type g struct {
 	wake   chan struct{}
 	alts   int // >1 when parked in Choose: number of environment answers
 	choice int
+	seq    int // order in which goroutines parked (larger = more recent)
 }
 
 type entry struct {
@@ -46,6 +47,7 @@ type Sched struct {
 	active   bool
 	Steps    int
 	MaxSteps int
+	seq      int
 	Diverged string
 }
 
@@ -88,6 +90,8 @@ func Point(w ...string) {
 	x := s.self()
 	s.mu.Lock()
 	s.parked[x] = what
+	s.seq++
+	x.seq = s.seq
 	s.mu.Unlock()
 	<-x.wake
 }
@@ -108,6 +112,8 @@ func Choose(n int, w ...string) int {
 	s.mu.Lock()
 	x.alts = n
 	s.parked[x] = what
+	s.seq++
+	x.seq = s.seq
 	s.mu.Unlock()
 	<-x.wake
 	return x.choice
@@ -169,7 +175,12 @@ func (s *Sched) Run(threads ...func()) (deadlock bool) {
 			gs = append(gs, x)
 		}
 		s.mu.Unlock()
-		sort.Slice(gs, func(i, j int) bool { return gs[i].id < gs[j].id })
+		// Default order: the goroutine that parked most recently first. When the running
+		// goroutine blocks in an un-instrumented operation (a channel hand-off to a worker it
+		// just woke), the default continuation is then that worker - what the Go runtime does
+		// with a freshly readied goroutine - and a goroutine that was preempted earlier stays
+		// parked until nothing else can run or a free alternative picks it.
+		sort.Slice(gs, func(i, j int) bool { return gs[i].seq > gs[j].seq })
 		if len(gs) == 0 {
 			lmu.Lock()
 			l := left
@@ -413,8 +424,23 @@ func Explore(t *testing.T, cfg Config) (*Stats, error) {
 		}
 		return true
 	}
-	// preemptions inside the prefix are accounted by the caller chain: start with none
-	rec(nil, 0)
+	// Iterative bounding: everything with 0 deviations, then with at most 1, ... up to the
+	// configured bound, so that schedules with few deviations are all covered before the budget
+	// goes into the (much larger) next level; the re-execution of the lower levels costs a
+	// small fraction of the last one.
+	maxBound := cfg.Preemptions
+	for b := 0; b <= maxBound; b++ {
+		if b < maxBound && maxBound-b > 2 {
+			continue // levels that are cheap relative to the next one: start at bound-2
+		}
+		cfg.Preemptions = b
+		subtree = -1
+		st.Exhaustive, st.CapHit = true, ""
+		if !rec(nil, 0) || firstErr != nil {
+			break
+		}
+	}
+	cfg.Preemptions = maxBound
 	st.Distinct = len(st.Outcomes)
 	return st, firstErr
 }
